@@ -36,8 +36,11 @@ func scratchBase() string {
 
 // NewUfsSys creates outer/{canary, canarydir/, root/} and starts a Ufs on root.
 func NewUfsSys(x *Ctx, srvMsize uint32, srvDotu bool, maxpend, debug int) *UfsSys {
-	base, err := os.MkdirTemp(scratchBase(), "ufs-")
-	if err != nil {
+	// a name of constant length: path names show up in error texts, and their
+	// length must not vary between processes or replay would diverge
+	base := filepath.Join(scratchBase(), fmt.Sprintf("ufs-%016x-%08d", x.C.Seed, os.Getpid()%100000000))
+	os.RemoveAll(base)
+	if err := os.MkdirAll(base, 0o755); err != nil {
 		x.Trouble("scratch: %v", err)
 		return nil
 	}
@@ -197,6 +200,26 @@ func genTree(r *Rand, n, maxDepth int, links bool) []tEntry {
 			if len(files) > 0 && r.Bool() {
 				tgt = filepath.Base(files[r.Intn(len(files))])
 			}
+			// or a link to a sibling directory: paths then lead through the link
+			if r.Pct(50) {
+				var sib []string
+				for _, d := range dirs {
+					if d != "" && filepath.Dir(d) == filepath.Dir(rel) && d != rel {
+						sib = append(sib, d)
+					}
+				}
+				if len(sib) > 0 {
+					d := sib[r.Intn(len(sib))]
+					es = append(es, tEntry{Rel: rel, Kind: 'l', Target: filepath.Base(d)})
+					// virtual entries: what lies below the directory is also reachable through the link
+					for _, e := range es {
+						if strings.HasPrefix(e.Rel, d+"/") && e.Kind != 'v' {
+							es = append(es, tEntry{Rel: rel + strings.TrimPrefix(e.Rel, d), Kind: 'v'})
+						}
+					}
+					continue
+				}
+			}
 			es = append(es, tEntry{Rel: rel, Kind: 'l', Target: tgt})
 		default:
 			if len(files) > 0 {
@@ -228,6 +251,8 @@ func makeTree(root string, es []tEntry) error {
 			err = os.Symlink(e.Target, p)
 		case 'h':
 			err = os.Link(filepath.Join(root, e.Target), p)
+		case 'v':
+			// reachable through a symbolic link to a directory; nothing to create
 		}
 		if err != nil {
 			return err
